@@ -275,24 +275,49 @@ Ltac compute_prim p :=
   | Ret _ => change p with v
   | Fail _ => change p with v
   end.
+Lemma py_nth_pred_label (l : list label) i :
+  (1 <= i)%nat -> (i - 1 < length l)%nat -> py_nth l (Z.of_nat i - 1) = Ret (nth (i - 1) l ""%string).
+Proof.
+  intros H1 H2. replace (Z.of_nat i - 1) with (Z.of_nat (i - 1)) by lia. apply py_nth_ok_label, H2.
+Qed.
+
+Lemma rev_if_length {A} be (l : list A) : length (rev_if be l) = length l.
+Proof. destruct be; [apply rev_length|reflexivity]. Qed.
+Global Hint Rewrite @rev_if_length : len.
+
+(* the joins of `if big_endian: x.reverse() ...` *)
+Lemma run_if_rev1 fresh {A} (be : bool) (x : list A) s :
+  run fresh (if be then Ret (rev x) else Ret x) s = Ok (rev_if be x, s).
+Proof. destruct be; reflexivity. Qed.
+Lemma run_if_rev2 fresh {A B} (be : bool) (x : list A) (y : list B) s :
+  run fresh (if be then Ret (rev x, rev y) else Ret (x, y)) s = Ok ((rev_if be x, rev_if be y), s).
+Proof. destruct be; reflexivity. Qed.
+
+Lemma Z_ltb_nat a b : (Z.of_nat a <? Z.of_nat b) = (a <? b)%nat.
+Proof.
+  destruct (Nat.ltb_spec a b); [apply Z.ltb_lt|apply Z.ltb_ge]; lia.
+Qed.
+
 Ltac prim_nth p :=
   lazymatch p with
+  | py_nth ?l (Z.of_nat ?i - 1) => rewrite (py_nth_pred_label l i) by lens
   | py_nth ?l (Z.of_nat ?i) =>
       first [ rewrite (py_nth_ok_label l i) by lens | rewrite (py_nth_err l i) by lens ]
   | py_set ?l (Z.of_nat ?i) ?x =>
       first [ rewrite (py_set_nat l i x) by lens | rewrite (py_set_err l i x) by lens ]
   end.
 Ltac step :=
+  rs;
   match goal with
   | |- context [match run ?f ?p ?s with _ => _ end] =>
       lazymatch p with
       | Bind _ _ => fail
       | Ret _ => fail
       | Fail _ => fail
-      | py_nth _ _ => first [compute_prim p | prim_nth p]; rs; try reflexivity
-      | py_set _ _ _ => first [compute_prim p | prim_nth p]; rs; try reflexivity
-      | py_unpack2 _ => compute_prim p; rs; try reflexivity
-      | nthP _ _ => compute_prim p; rs; try reflexivity
+      | py_nth _ _ => first [compute_prim p | prim_nth p | destruct (run f p s) as [[? ?]|?]]; rs; try reflexivity
+      | py_set _ _ _ => first [compute_prim p | prim_nth p | destruct (run f p s) as [[? ?]|?]]; rs; try reflexivity
+      | py_unpack2 _ => first [compute_prim p | destruct (run f p s) as [[? ?]|?]]; rs; try reflexivity
+      | nthP _ _ => first [compute_prim p | destruct (run f p s) as [[? ?]|?]]; rs; try reflexivity
       | _ => destruct (run f p s) as [[? ?]|?]; rs; try reflexivity
       end
   end.
